@@ -1084,6 +1084,8 @@ func (c *cenv) TypedUF(name string) ([]types.Type, types.Type, bool) {
 		return []types.Type{dec, dec}, dec, true
 	case "requiredFees":
 		return []types.Type{types.Typ[types.Uint64], dec}, coins, true
+	case "coinsValid":
+		return []types.Type{coins}, types.Typ[types.Bool], true
 	case "coinsIsAnyGTE":
 		return []types.Type{coins, coins}, types.Typ[types.Bool], true
 	case "decCoinsIsZero", "decCoinsValid":
